@@ -491,6 +491,13 @@ func deathClass(f *failure, k *kase) (class, got string) {
 	if where == "" {
 		where = target
 	}
+	if !f.wedged && k.Fn != "" && !strings.Contains(reason, "stack") {
+		// a death that is not a stack overflow (out of memory: a loop that grows
+		// without asking a limit) has no recursion for the dump to name -- the
+		// most frequent frames are the ones every load shares (LoadContext) --
+		// so in a call space the callable under test is the specific identity
+		where = target
+	}
 	if f.wedged {
 		// named by the function that dominates the stuck goroutine's stack
 		// (from the SIGQUIT dump), or by the case's context when there is none
